@@ -14,7 +14,12 @@ TRUSTED = [
     "translator/c15.py (ipc_kernel guards + 3x3 literal, the statement of simple_collection, the mask assignment of "
     "apply_simple_full_well_capacity, both branches of apply_qe, the argument-or-characteristics selection and the "
     "guards of simple_full_well and simple_conversion, the range checks and the capacity selection of cdm and the "
-    "keywords it hands to run_cdm_* -> Gen_C15.src_*; fails closed on any other shape)",
+    "keywords it hands to run_cdm_*, the single whole-frame convolve_fft call of compute_ipc_convolution with "
+    "boundary fill = mean -> Gen_C15.src_*; fails closed on any other shape) and translator/c15_norm.py (the functions "
+    "are first rewritten into one canonical shape by behaviour-preserving rules: same-package helpers inlined, "
+    "single-assignment aliases and call-free intermediate results substituted unless something in between could make "
+    "them stale, match -> if/elif, conditional expression <-> if/else, guard-clause form, split comparison chains, "
+    "module-level numeric constants, annotations / docstrings / logging dropped)",
     "correspondence harness: harness/props/c15.py generators, harness/drivers/c15.py, float.hex() -> exact rationals; "
     "frames are transposed to per-pixel species lists (persistence) and to lines in transfer order (CDM) in Python",
     "modelled, not verified: numpy/numba elementwise float64 arithmetic is exact on the generated dyadic inputs "
@@ -24,7 +29,10 @@ TRUSTED = [
     "pandas keeps the rows of the particle frame (concat) - the particle frame itself is not modelled, only the "
     "sequence of add_charge_array / add_charge calls and the re-binned array",
     "astropy.convolve_fft (FFT rounding; kernel normalisation is the identity for weights summing to one): compared "
-    "with relative tolerance 1e-9 on the implementation side only",
+    "with relative tolerance 1e-9 on the implementation side only; tall thin frames (block-size + a few rows, up to "
+    "4096 rows) are TESTED against the conservation clause on the implementation's output (window total unchanged, "
+    "nothing changes outside the window, dense 3x3 reference in numpy) - only their 12-row window goes through the "
+    "Coq model",
     "CDM: exp / pow are abstract range-constrained factors in the theorem and a**beta is taken as a * a**(beta-1); "
     "the real run_cdm_parallel/serial are TESTED against the theorem's conclusion (no negative pixel, line total "
     "not above the input within 1e-9 relative) for general parameters, and compared with the exact-arithmetic model "
